@@ -8,6 +8,8 @@ from harness.core import Case
 from harness import clientlib as cl
 from harness.callreg import invocations
 
+WIDE = 200000        # thorough tier: histories of the wide correspondence stream (widegen.py), judged by the model and the generic rule
+WIDE_QUICK = 2000
 PROP = 'C03'
 EXHAUSTIVE = True
 RULE = ('every modelled entry point x every echoed byte of its positive response x all 255 wrong values (exhaustive in each '
